@@ -213,7 +213,7 @@ def widthsLine : String :=
   "head u4 tail u4 size u4 rc.counter i4 rc.size i4 cyc._size u8 arr.m_size u8 " ++
   "ring_read i4 ring_write i4 ring_avail u4 ring_room u4 ring_fixup_index i4 putc i4 getc i4 " ++
   "t.read u8 t.write u8 t.avail u4 t.room u4 t.size u4 t.index_of i4 t.tail_index i4 t.distance i4 " ++
-  "t.fixup_index i4 ring_head 12 ring_counter 8 int_max 2147483647 uint_max 4294967295"
+  "t.fixup_index i4 int_max 2147483647 uint_max 4294967295"
 
 /-- byte `j` of the deterministic data sequence of the `hist` ops -/
 def histByte (j : Nat) : Byte := ([0xff, 0x80, 0x00, 0x7f, 0x01, 0xfe, 0x81] : List Byte).getD (j % 7) 0
